@@ -317,10 +317,10 @@ def correspondence(ctx):
     if ctx.widen:
         hi = max(hi, 14)
     wide = 2 if ctx.widen else 1
-    n_meta = ctx.scale(40, 400) * wide
-    n_exec = ctx.scale(40, 400)
-    n_fpm = ctx.scale(40, 300) * wide
-    n_pred = ctx.scale(80, 800) * wide
+    n_meta = ctx.scale(80, 400) * wide
+    n_exec = ctx.scale(100, 400)
+    n_fpm = ctx.scale(90, 300) * wide
+    n_pred = ctx.scale(250, 800) * wide
 
     lines, meta = [], []
     # metamorphic triples, each member also sent to the model
